@@ -58,6 +58,8 @@ class Include(DirectivePlugin):
         ext = os.path.splitext(relpath)[1]
         if ext in {".md", ".markdown", ".mkd"}:
             new_state = block.state_cls()
+            # nested below the including state, so that quote/list nesting is counted from the document's top
+            new_state.parent = state
             new_state.env["__file__"] = dest
             new_state.env["__include_chain__"] = chain + (dest,)
             new_state.process(content)
